@@ -14,6 +14,7 @@ pub mod c15;
 pub mod c16;
 pub mod c18;
 pub mod dp;
+pub mod rules;
 pub mod sqlprops;
 
 pub type RunFn = fn(&Ctx, &Findings) -> Report;
@@ -22,6 +23,7 @@ pub type ReplayFn = fn(&str, &J, &mut Stats) -> Result<Vec<Fail>, String>;
 pub fn lookup(id: &str) -> Option<(RunFn, ReplayFn)> {
     match id {
         "C01" => Some((c01::run, c01::replay)),
+        "C02" => Some((rules::run_c02, rules::replay_c02)),
         "C03" => Some((c03::run, c03::replay)),
         "C04" => Some((c04::run, c04::replay)),
         "C05" => Some((c05::run, c05::replay)),
@@ -32,6 +34,7 @@ pub fn lookup(id: &str) -> Option<(RunFn, ReplayFn)> {
         "C10" => Some((c10::run, c10::replay)),
         "C11" => Some((c11::run, c11::replay)),
         "C12" => Some((c12::run, c12::replay)),
+        "C13" => Some((rules::run_c13, rules::replay_c13)),
         "C14" => Some((sqlprops::run_c14, sqlprops::replay_c14)),
         "C15" => Some((c15::run, c15::replay)),
         "C16" => Some((c16::run, c16::replay)),
